@@ -22,7 +22,11 @@ RULE = (
     "variance model (covariant outputs, contravariant inputs, recursively through lists; removals; "
     "new required inputs) must find no breaking difference and operations valid on the old schema "
     "must validate on the new one; the multiset must be identical under PYTHONHASHSEED 0-3 "
-    "(subprocesses) and under reordered type definitions. Non-trivial = distinct pair that differs by "
+    "(subprocesses) and under reordered type definitions. "
+    "Further edits: enum value renamed keeping its internal value, default and nullability of one "
+    "element changed together, related scalars swapped in input positions, the same nullability "
+    "change in an input and an output position.  "
+    "Non-trivial = distinct pair that differs by "
     ">= 1 edit, or an equal pair built from reordered definitions."
 )
 ASSUMPTIONS = ["the variance model (refvariance) states client impact: an output position may only become stricter, an input position only more permissive"]
